@@ -107,8 +107,14 @@ impl<Key, Value> CommandExecutor<Key, Value>
             ttl_ticker: Arc<TTLTicker>) {
         let store_clone = store.clone();
         let delete_hook = move |key| { store_clone.delete(&key); };
+        #[cfg(cached_verif)]
+        let verif_controller = crate::cache::verif::capture();
 
         thread::spawn(move || {
+            #[cfg(cached_verif)]
+            crate::cache::verif::enter(verif_controller, crate::cache::verif::Role::Worker);
+            #[cfg(cached_verif)]
+            crate::cache::verif::gate(true);
             while let Ok(pair) = receiver.recv() {
                 let command = pair.command;
                 let status = match command {
@@ -148,6 +154,8 @@ impl<Key, Value> CommandExecutor<Key, Value>
                     CommandType::Shutdown => {
                         info!("Received Shutdown command");
                         pair.acknowledgement.done(CommandStatus::Accepted);
+                        #[cfg(cached_verif)]
+                        crate::cache::verif::worker_draining();
                         for command_acknowledgement_pair in receiver.iter() {
                             command_acknowledgement_pair.acknowledgement.done(CommandStatus::ShuttingDown);
                         }
@@ -156,6 +164,8 @@ impl<Key, Value> CommandExecutor<Key, Value>
                     }
                 };
                 pair.acknowledgement.done(status);
+                #[cfg(cached_verif)]
+                crate::cache::verif::gate(false);
             }
         });
     }
@@ -166,6 +176,8 @@ impl<Key, Value> CommandExecutor<Key, Value>
     /// 2) It allows `CommandExecutor` to change the status of the command inside `CommandAcknowledgement`. This would then finish the `await` at the client's end.
     pub(crate) fn send(&self, command: CommandType<Key, Value>) -> CommandSendResult {
         let acknowledgement = CommandAcknowledgement::new();
+        #[cfg(cached_verif)]
+        crate::cache::verif::before_send(0, self.sender.is_full());
         let send_result = self.sender.send(CommandAcknowledgementPair {
             command,
             acknowledgement: acknowledgement.clone(),
@@ -712,4 +724,11 @@ mod sociable_tests {
         assert_eq!(Some("microservices"), store.get(&"topic"));
         assert_eq!(Some(20), admission_policy.weight_of(&key_id));
     }
+}
+
+#[cfg(cached_verif)]
+impl<Key, Value> CommandExecutor<Key, Value>
+    where Key: Hash + Eq + Send + Sync + Clone + 'static,
+          Value: Send + Sync + 'static {
+    pub(crate) fn verif_queue_len(&self) -> usize { self.sender.len() }
 }
